@@ -17,7 +17,7 @@ RUN_TIMEOUT = 120
 SELFTEST_PAIRS = {"quick": 12, "thorough": 30}
 PROBES = ["empty_mime_db", "hostile_mime_db", "reinit_from_sandbox_file", "decision_only_via_mime_fallback", "compound_extension", "url_like_path",
           "read_file_dispatch_checked", "archive_member_dispatch_checked", "attachment_dispatch_checked", "case_variant_checked", "symlink_path",
-          "trailing_separator_path", "history_revisits_path_after_db_change", "every_mapped_mime_on_unknown_ext"]
+          "trailing_separator_path", "history_revisits_path_after_db_change", "every_mapped_mime_on_unknown_ext", "cold_process_routing"]
 RULE = ("one run = a history of 20-60 operations interleaving routing calls (is_supported_file / get_extractor / read_file / archive member / "
         "e-mail attachment routing) on generated path strings with perturbations of the host MIME database (emptied, hostile overrides, re-init "
         "from a sandbox mime.types, restored), cwd changes and sandbox files; distinct non-trivial = (extension class, path shape, database "
@@ -79,7 +79,8 @@ def warm():
 STEMS = ["report", "a b", "", ".", "..", "x.y", "ünï", "日本", "con", " lead", "trail ", "a.tar", "file.docx", "UPPER", "-dash", "%41", "q?x=1", "h#frag",
          "semi;colon", "tab\tname", "nl\nname", "*"]
 DIRS = ["", "dir/", "/abs/dir/", "a\\b\\", "./", "../", "dir.d/", "dir.docx/", "C:\\Users\\x\\", "~/", "http://host/path/", "https://h.example/a.pdf/",
-        "file:///tmp/", "archive.zip!/", "archive.zip!/sub/", "data:text/plain,", "//server/share/", "d i r/"]
+        "file:///tmp/", "archive.zip!/", "archive.zip!/sub/", "data:text/plain,", "//server/share/", "d i r/", "nightly.tar.gz.extracted/", "site.TAR.XZ.d/",
+        "x.tar.bz2.unpacked/sub/", "dump.tar.gz."]
 TAILS = ["", "", "", "", "/", "/.", " ", ".", "?x=1", "#frag", "?download=1&name=a.pdf", "\\", "\n", ";", ":", "~", ".bak"]
 
 
@@ -118,6 +119,10 @@ HOSTILE = [("application/pdf", ".docx"), ("text/plain", ".exe"), ("application/z
 
 
 def gen_case(rng: random.Random, tier: str) -> dict:
+    if rng.random() < 0.04:
+        # cold process: the MIME database is perturbed BEFORE any extractor module is imported (they load lazily on first routing)
+        exts = rng.sample(sorted(DOCUMENTED), rng.choice([6, 12, len(DOCUMENTED)]))
+        return {"cold": True, "db": rng.choice(["empty", "empty", "hostile", "default"]), "hostile": rng.sample(range(len(HOSTILE)), 3), "exts": exts}
     ops = []
     paths = [_gen_path(rng) for _ in range(rng.randrange(6, 16))]
     for _ in range(rng.randrange(20, 61)):
@@ -213,7 +218,70 @@ def _decide(path):
     return s, g
 
 
+COLD_WORKER = '''
+import json, sys, mimetypes
+spec = json.load(sys.stdin)
+import logging, warnings
+logging.disable(logging.CRITICAL); warnings.simplefilter("ignore")
+mimetypes.init()
+if spec["db"] == "empty":
+    db = mimetypes.MimeTypes(filenames=())
+    db.types_map = ({}, {}); db.types_map_inv = ({}, {}); db.suffix_map = {}; db.encodings_map = {}
+    mimetypes._db = db; mimetypes.inited = True
+    mimetypes.types_map = db.types_map[True]; mimetypes.common_types = db.types_map[False]; mimetypes.suffix_map = db.suffix_map; mimetypes.encodings_map = db.encodings_map
+elif spec["db"] == "hostile":
+    for t, e in spec["pairs"]:
+        try: mimetypes.add_type(t, e, strict=True)
+        except Exception: pass
+from sharepoint2text.parsing.router import get_extractor, is_supported_file
+from sharepoint2text.parsing.exceptions import ExtractionFileFormatNotSupportedError
+out = []
+for ext in spec["exts"]:
+    p = "dir/file." + ext
+    try: s = bool(is_supported_file(p))
+    except Exception as e: s = "EXC:" + type(e).__name__
+    try:
+        f = get_extractor(p); g = f.__module__.rsplit(".", 1)[-1] + "." + f.__name__
+    except ExtractionFileFormatNotSupportedError: g = None
+    except Exception as e: g = "EXC:" + type(e).__name__ + ":" + str(e)[:80]
+    out.append([ext, s, g])
+json.dump(out, sys.stdout)
+'''
+
+
+def _run_cold(case):
+    import subprocess
+    import sys
+    log = K.EventLog()
+    log.ev("case", K.h64(K.jdump(case)))
+    spec = {"db": case["db"], "pairs": [list(HOSTILE[i]) for i in case["hostile"]], "exts": case["exts"]}
+    env = dict(os.environ)
+    env["PYTHONPATH"] = K.REPO + os.pathsep + K.VERIF
+    p = subprocess.run([sys.executable, "-c", COLD_WORKER], input=__import__("json").dumps(spec), capture_output=True, text=True, env=env, cwd="/", timeout=120)
+    if p.returncode != 0:
+        raise RuntimeError("cold routing worker failed: " + p.stderr[-1000:])
+    viol = []
+    for ext, s, g in __import__("json").loads(p.stdout):
+        log.ev("cold", case["db"], ext, s, g)
+        if isinstance(s, str) or (isinstance(g, str) and g.startswith("EXC:")):
+            viol.append({"class": "routing_raised_foreign_exception", "sig": f"cold|{(g if isinstance(g, str) and g.startswith('EXC') else s).split(':')[1]}",
+                         "detail": f"fresh process, MIME database '{case['db']}' set before the first routing call: .{ext} -> is_supported_file={s!r}, get_extractor -> {g!r}"})
+        elif bool(s) != (g is not None):
+            viol.append({"class": "is_supported_disagrees_with_get_extractor", "sig": f"cold|supported={s}|{g}", "detail": f"fresh process db={case['db']}: .{ext}"})
+        elif g != DOCUMENTED[ext]:
+            viol.append({"class": "documented_extension_misrouted", "sig": f"cold|{ext}->{g}", "detail": f"fresh process db={case['db']}: .{ext} routed to {g}, documented {DOCUMENTED[ext]}"})
+    seen, out = set(), []
+    for v in viol:
+        if (v["class"], v["sig"]) not in seen:
+            seen.add((v["class"], v["sig"]))
+            out.append(v)
+    return {"violations": out, "digest": log.digest(), "steps": log.n, "evals": len(case["exts"]), "faults": {"mime_db_perturbation": 1}, "probes": {"cold_process_routing": 1},
+            "nontrivial": [f"cold|{case['db']}|{e}" for e in case["exts"]], "states": [log.digest()[:8]], "summary": {"cold": True}}
+
+
 def run_case(case: dict) -> dict:
+    if case.get("cold"):
+        return _run_cold(case)
     import sharepoint2text
     log = K.EventLog()
     log.ev("case", K.h64(K.jdump(case)))
@@ -456,6 +524,11 @@ def _dispatch(path, kind, sbx, viol, probe, log, dbstate):
 
 
 def shrink(case):
+    if case.get("cold"):
+        for e in case["exts"]:
+            if len(case["exts"]) > 1:
+                yield dict(case, exts=[e])
+        return
     ops = case["ops"]
     n = len(ops)
     chunk = max(1, n // 2)
